@@ -2168,4 +2168,40 @@ theorem hierFacts_of_table (T : HierTab) (h : tableOK T = true) : HierFacts T.to
       · exact absurd this hne
       · exact this
 
+/-- a non-empty list of candidates keeps at least one after its strict superclasses are dropped
+    (a finite strict partial order has a minimal element) -/
+theorem dropSupers_ne_nil (H : Hier) (hH : HierFacts H) :
+    ∀ l : List Ty, l ≠ [] → ∃ m ∈ l, ∀ o ∈ l, o ≠ m → H.sub o m = false := by
+  intro l
+  induction l with
+  | nil => intro h; exact absurd rfl h
+  | cons a l ih =>
+    intro _
+    cases l with
+    | nil => exact ⟨a, by simp, fun o ho hne => by simp at ho; exact absurd ho hne⟩
+    | cons b l' =>
+      obtain ⟨m, hm, hmin⟩ := ih (by simp)
+      by_cases hlt : a ≠ m ∧ H.sub a m = true
+      · refine ⟨a, by simp, fun o ho hne => ?_⟩
+        simp only [List.mem_cons] at ho
+        rcases ho with ho | ho
+        · exact absurd ho hne
+        · by_cases hs : H.sub o a = true
+          · exfalso
+            have hom : H.sub o m = true := hH.sub_trans _ _ _ hs hlt.2
+            have hne' : o ≠ m := by
+              intro e; subst e
+              exact hlt.1 (hH.sub_antisymm _ _ hlt.2 hs)
+            have := hmin o (by simpa using ho) hne'
+            rw [hom] at this; exact absurd this (by simp)
+          · simpa using hs
+      · refine ⟨m, by simp [hm], fun o ho hne => ?_⟩
+        simp only [List.mem_cons] at ho
+        rcases ho with ho | ho
+        · subst ho
+          by_cases hs : H.sub o m = true
+          · exact absurd ⟨hne, hs⟩ hlt
+          · simpa using hs
+        · exact hmin o (by simpa using ho) hne
+
 end Glom.C13
